@@ -69,6 +69,25 @@ func runParse(text, form string) (*parsed, string) {
 	r := &parsed{text: text, form: form}
 	a, derr := decodeText(text)
 	if derr != nil {
+		// not a YAML document, or one whose aliases cannot be expanded: Parse must say so (a hard error, no result
+		// to use) - and must get there without panicking
+		panicked := ""
+		var p *pipeline.Pipeline
+		var perr error
+		func() {
+			defer func() {
+				if x := recover(); x != nil {
+					panicked = fmt.Sprint(x)
+				}
+			}()
+			p, perr = pipeline.Parse(strings.NewReader(text))
+		}()
+		if panicked != "" {
+			return nil, "panic: " + panicked
+		}
+		if perr == nil || warning.Is(perr) {
+			return nil, fmt.Sprintf("accepted-undecodable: the text does not decode (%v) but Parse returns a usable result (err=%v, pipeline=%v)", derr, perr, p != nil)
+		}
 		return nil, "decode: " + derr.Error()
 	}
 	r.caseSx = anySexp(a)
